@@ -463,6 +463,25 @@ def check(repo: Repo, run: Run) -> None:
                                  f"{[(t_, decoders.fmt_atoms(k_), decoders.fmt_atoms(v_)) for t_, k_, v_ in contract]}: the wrong "
                                  f"thread or process is (re)declared", facts={"key": decoders.fmt_atoms(ka), "value": decoders.fmt_atoms(va)},
                    line=e0.lineno)
+            # ... and it is declared whenever the record arrives: the only thing the store may wait for is that the pending
+            # data record it names exists (`data = parser.last_data_x.get(tid)` / `if data is not None`)
+            from .. import guards as _guards
+            extra = []
+            for c_, p_ in _guards._atoms(e0.pc):
+                atom_, _ = render.norm_bool(c_)
+                operand = atom_.a[1] if atom_.op == "cmp" and atom_.a[0] in ("is", "in", "==") else atom_
+                if atom_.op == "cmp" and atom_.a[0] == "in":
+                    operand = atom_.a[2]
+                slot_lookup = (operand.op == "call" and operand.a[0].op == "attr" and operand.a[0].a[1] == "get"
+                               and operand.a[0].a[0].op == "attr" and operand.a[0].a[0].a[0] == decoders.PARSER) or \
+                    (operand.op == "sub" and operand.a[0].op == "attr" and operand.a[0].a[0] == decoders.PARSER) or \
+                    (operand.op == "attr" and operand.a[0] == decoders.PARSER)
+                if not slot_lookup:
+                    extra.append(sym.pretty(c_)[:70])
+            run.ob("R4", m_, fn_, f"{ident}: declared whenever the record arrives", not extra,
+                   "" if not extra else f"{ident} stores its declaration only when {extra[:2]}: records for which that does not hold "
+                                        f"declare nothing, and later lines name a stale (or no) process", line=e0.lineno,
+                   nontrivial=False, witness="a record for which the extra condition is false, then a line of the declared thread")
     # the pending data record a string record names: the string decoders read `<pending>.pid`; the data decoders must
     # have put the record's pid word there (new-thread: word 1 - word 0 is the new thread's id; exec: word 0), under the
     # emitting thread's id
